@@ -23,6 +23,7 @@ import (
 	"sort"
 	"strings"
 	"sync"
+	"sync/atomic"
 	"time"
 
 	c "github.com/buzzfeed/sso/internal/zz_verif/common"
@@ -173,10 +174,21 @@ func (b *barrier) arrive(phase int) chan struct{} {
 	return b.ch2
 }
 
+// gateTimeouts counts how often a gate gave up waiting. That happens only when a request never reaches
+// its gates (e.g. it waits inside the service for ANOTHER request of the batch); the first few times
+// the wait is long enough for a loaded machine, afterwards short, so that a run against a service
+// that couples requests still ends in reasonable time.
+var gateTimeouts int32
+
 func waitFor(ch chan struct{}) {
+	d := 1500 * time.Millisecond
+	if atomic.LoadInt32(&gateTimeouts) >= 6 {
+		d = 150 * time.Millisecond
+	}
 	select {
 	case <-ch:
-	case <-time.After(5 * time.Second):
+	case <-time.After(d):
+		atomic.AddInt32(&gateTimeouts, 1)
 	}
 }
 
@@ -245,17 +257,56 @@ const (
 	codeKeyB64    = "CrYro5Kp6CO2aBbVGoHgnh2/YQaz9cqqRYNbtTSUBDs="
 	cookieKeyB64  = "zaPX2fYMyegfOwwMEaMiphwrjgxz0pxoTbxvQiK9zBY="
 	foreignKeyB64 = "q83vASNFZ4mrze8BI0VniavN7wEjRWeJq83vASNFZ4k="
+	// 64-byte keys (validateCipherKeyValue allows 32 or 64)
+	codeKey64B64   = "CrYro5Kp6CO2aBbVGoHgnh2/YQaz9cqqRYNbtTSUBDsDChEYHyYtNDtCSVBXXmVsc3qBiI+WnaSrsrnAx87V3A=="
+	cookieKey64B64 = "zaPX2fYMyegfOwwMEaMiphwrjgxz0pxoTbxvQiK9zBYFEBsmMTxHUl1oc36JlJ+qtcDL1uHs9wINGCMuOURPWg=="
 )
 
-func baseConfig(clients map[string]auth.ClientConfig) auth.Configuration {
+func b64(s string) []byte {
+	k, err := base64.StdEncoding.DecodeString(s)
+	c.Must(err)
+	return k
+}
+
+// relatedKeys: "another key" in every way a key can be another one: unrelated (both sizes), sharing
+// the first or the second half, one bit away at either end, the first / second half alone, padded
+func relatedKeys(k []byte) [][]byte {
+	cp := func(b []byte) []byte { return append([]byte{}, b...) }
+	flip := func(b []byte, i int) []byte { x := cp(b); x[i] ^= 1; return x }
+	h := len(k) / 2
+	other := b64(foreignKeyB64)
+	other64 := append(cp(other), b64(cookieKeyB64)...)
+	out := [][]byte{other, other64, flip(k, 0), flip(k, len(k)-1), flip(k, h), flip(k, h-1)}
+	firstHalfKept := cp(k)
+	for i := h; i < len(k); i++ {
+		firstHalfKept[i] ^= 0x5a
+	}
+	secondHalfKept := cp(k)
+	for i := 0; i < h; i++ {
+		secondHalfKept[i] ^= 0xa5
+	}
+	out = append(out, firstHalfKept, secondHalfKept)
+	if len(k) == 64 {
+		out = append(out, cp(k[:32]), cp(k[32:])) // a half used as a key of the smaller size
+	} else {
+		out = append(out, append(cp(k), make([]byte, 32)...), append(cp(k), k...)) // extended to the larger size
+	}
+	return out
+}
+
+func baseConfig(clients map[string]auth.ClientConfig, keys ...string) auth.Configuration {
+	codeK, cookieK := codeKeyB64, cookieKeyB64
+	if len(keys) == 2 {
+		codeK, cookieK = keys[0], keys[1]
+	}
 	return auth.Configuration{
 		ServerConfig: auth.ServerConfig{Host: "sso-auth.example.test", Port: 4180, Scheme: "https",
 			TimeoutConfig: auth.TimeoutConfig{Write: 30 * time.Second, Read: 30 * time.Second, Request: 45 * time.Second}},
 		SessionConfig: auth.SessionConfig{
 			SessionLifetimeTTL: 720 * time.Hour,
-			CookieConfig: auth.CookieConfig{Name: "_sso_auth", Secret: cookieKeyB64, Expire: 168 * time.Hour,
+			CookieConfig: auth.CookieConfig{Name: "_sso_auth", Secret: cookieK, Expire: 168 * time.Hour,
 				Secure: true, HTTPOnly: true},
-			Key: codeKeyB64,
+			Key: codeK,
 		},
 		MetricsConfig: auth.MetricsConfig{StatsdConfig: auth.StatsdConfig{Host: "localhost", Port: 8125}},
 		LoggingConfig: auth.LoggingConfig{Enable: false},
@@ -276,7 +327,11 @@ type world struct {
 	a          *auth.Authenticator
 	bare       http.Handler
 	chain      http.Handler
+	full       http.Handler // what cmd/sso-auth/main.go serves: logging(timeout(NewAuthenticatorMux))
 	prov       *fakeProvider
+	codeKey    []byte
+	cookieKey  []byte
+	related    [][]byte // other keys, see relatedKeys
 }
 
 var args c.Args
@@ -293,14 +348,6 @@ func brokenTie(msg string, err error) {
 	os.Exit(0)
 }
 
-func mustCipher(b64 string) *aead.MiscreantCipher {
-	k, err := base64.StdEncoding.DecodeString(b64)
-	c.Must(err)
-	ci, err := aead.NewMiscreantCipher(k)
-	c.Must(err)
-	return ci
-}
-
 func newAuthenticator(cfg auth.Configuration, prov providers.Provider) (*auth.Authenticator, error) {
 	// the option list of NewAuthenticatorMux (mux.go:41-47) with our provider
 	return auth.NewAuthenticator(cfg,
@@ -312,19 +359,36 @@ func newAuthenticator(cfg auth.Configuration, prov providers.Provider) (*auth.Au
 	)
 }
 
-func newWorld(id, secret string) *world {
-	cfg := baseConfig(map[string]auth.ClientConfig{"proxy": {ID: id, Secret: secret}})
+func newWorld(id, secret string, keys ...string) *world {
+	if len(keys) != 2 {
+		keys = []string{codeKeyB64, cookieKeyB64}
+	}
+	cfg := baseConfig(map[string]auth.ClientConfig{"proxy": {ID: id, Secret: secret}}, keys...)
 	prov := &fakeProvider{ProviderData: &providers.ProviderData{ProviderName: "Fake", ProviderSlug: "test"}}
 	a, err := newAuthenticator(cfg, prov)
 	if err != nil {
 		brokenTie("auth.NewAuthenticator refuses the driver's configuration", err)
 	}
-	w := &world{id: id, secret: secret, valid: cfg.Validate() == nil, a: a, prov: prov}
+	w := &world{id: id, secret: secret, valid: cfg.Validate() == nil, a: a, prov: prov,
+		codeKey: b64(keys[0]), cookieKey: b64(keys[1])}
+	w.related = relatedKeys(w.codeKey)
 	// [gated] sits directly in front of the authenticator's mux (inside the timeout handler, which
 	// buffers the response) and does nothing for a request that runs alone
 	w.bare = gated(a.ServeMux)
 	// cmd/sso-auth/main.go:47-55
 	w.chain = auth.NewLoggingHandler(ioutil.Discard, http.TimeoutHandler(gated(a.ServeMux), 45*time.Second, ""), false, nil)
+	// the binary's own wiring, booted from the configuration: NewAuthenticatorMux (host routing,
+	// "/<slug>" prefix, whatever wrappers it installs around each authenticator's mux) behind the
+	// timeout and logging handlers of cmd/sso-auth/main.go. Only the identity provider is replaced
+	// (shim). The gate wrapper can only sit outside the mux here.
+	am, err := auth.NewAuthenticatorMux(cfg, nil)
+	if err != nil {
+		brokenTie("auth.NewAuthenticatorMux refuses the driver's configuration", err)
+	}
+	if n := len(auth.VerifC08SetProvider(am, prov)); n != 1 {
+		brokenTie("auth.NewAuthenticatorMux", fmt.Errorf("built %d authenticators for one configured provider", n))
+	}
+	w.full = auth.NewLoggingHandler(ioutil.Discard, http.TimeoutHandler(gated(am), 45*time.Second, ""), false, nil)
 	return w
 }
 
@@ -342,6 +406,8 @@ type reqSpec struct {
 	Headers []pair   `json:"headers"` // only the headers the model reads, canonical keys, in order
 	Accept  string   `json:"accept"`
 	Pre     bool     `json:"behind_logging_handler"`
+	Via     int      `json:"via"` // 0 authenticator's mux, 1 logging+timeout around it, 2 logging+timeout around NewAuthenticatorMux
+	Zone    string   `json:"process_time_zone,omitempty"`
 	IDs     []string `json:"presented_ids"`
 	Secrets []string `json:"presented_secrets"`
 }
@@ -443,13 +509,11 @@ func jsonBody(ps []pair) string {
 // ---------------------------------------------------------------------------------------------
 
 type gen struct {
-	r       *c.Rng
-	code    *aead.MiscreantCipher // same key as the authenticators' AuthCodeCipher
-	cookie  *aead.MiscreantCipher
-	foreign *aead.MiscreantCipher
-	worlds  []*world
-	n       int
-	seq     int // request number: makes every request's tokens and e-mail unique
+	r      *c.Rng
+	worlds []*world
+	zone   string // name of the zone time.Local is set to while the current batch is generated and run
+	n      int
+	seq    int // request number: makes every request's tokens and e-mail unique
 }
 
 func (g *gen) wrongOf(right string) string {
@@ -660,7 +724,15 @@ func (g *gen) corrupt(v string) string {
 	return v[h:] + v[:h]
 }
 
-func (g *gen) genCode(base time.Time, hot bool) codeSpec {
+func newCipher(k []byte) *aead.MiscreantCipher {
+	ci, err := aead.NewMiscreantCipher(k)
+	if err != nil {
+		brokenTie(fmt.Sprintf("aead.NewMiscreantCipher refuses a %d byte key", len(k)), err)
+	}
+	return ci
+}
+
+func (g *gen) genCode(w *world, base time.Time, hot bool) codeSpec {
 	r := g.r
 	g.n++
 	fresh := sess{Email: fmt.Sprintf("zqEM%d@mark.example.test", g.n), Access: fmt.Sprintf("zqAT%dx", g.n),
@@ -672,49 +744,55 @@ func (g *gen) genCode(base time.Time, hot bool) codeSpec {
 		fresh.Refresh = "" // a session without refresh token redeems like any other
 	}
 	if hot && r.Chance(0.6) {
-		return codeSpec{Kind: 1, Value: g.sealWith(g.code, base, fresh), S: &fresh}
+		return codeSpec{Kind: 1, Value: g.sealWith(newCipher(w.codeKey), base, fresh), S: &fresh}
 	}
 	switch r.Intn(16) {
 	case 0:
 		return codeSpec{Kind: 0, Value: ""}
 	case 1, 2, 3, 4, 5:
-		return codeSpec{Kind: 1, Value: g.sealWith(g.code, base, fresh), S: &fresh}
+		return codeSpec{Kind: 1, Value: g.sealWith(newCipher(w.codeKey), base, fresh), S: &fresh}
 	case 6: // non-canonical spelling of a genuine code
-		v := g.sealWith(g.code, base, fresh)
+		v := g.sealWith(newCipher(w.codeKey), base, fresh)
 		i := r.Intn(len(v))
 		return codeSpec{Kind: 2, Value: v[:i] + "\n" + v[i:], S: &fresh}
 	case 7:
 		s := fresh
 		s.RefreshOff = neg[r.Intn(3)]
-		return codeSpec{Kind: 3, Value: g.sealWith(g.code, base, s), S: &s}
+		return codeSpec{Kind: 3, Value: g.sealWith(newCipher(w.codeKey), base, s), S: &s}
 	case 8:
 		s := fresh
 		s.LifeOff = neg[r.Intn(3)]
 		if r.Chance(0.3) {
 			s.RefreshOff = neg[r.Intn(3)]
 		}
-		return codeSpec{Kind: 4, Value: g.sealWith(g.code, base, s), S: &s}
+		return codeSpec{Kind: 4, Value: g.sealWith(newCipher(w.codeKey), base, s), S: &s}
 	case 9, 10, 11:
-		return codeSpec{Kind: 5, Value: g.corrupt(g.sealWith(g.code, base, fresh)), S: &fresh}
+		return codeSpec{Kind: 5, Value: g.corrupt(g.sealWith(newCipher(w.codeKey), base, fresh)), S: &fresh}
 	case 12, 13:
-		return codeSpec{Kind: 6, Value: g.sealWith(g.cookie, base, fresh), S: &fresh}
+		return codeSpec{Kind: 6, Value: g.sealWith(newCipher(w.cookieKey), base, fresh), S: &fresh}
 	case 14:
-		return codeSpec{Kind: 7, Value: g.sealWith(g.foreign, base, fresh), S: &fresh}
+		return codeSpec{Kind: 7, Value: g.sealWith(newCipher(w.related[r.Intn(len(w.related))]), base, fresh), S: &fresh}
 	}
 	// a sealed value of another type under the code key is not produced anywhere in the code base;
 	// a cookie-key code that is also expired
 	s := fresh
 	s.RefreshOff = neg[r.Intn(3)]
-	return codeSpec{Kind: 6, Value: g.sealWith(g.cookie, base, s), S: &s}
+	return codeSpec{Kind: 6, Value: g.sealWith(newCipher(w.cookieKey), base, s), S: &s}
 }
 
 // the open oracle, computed with the real ciphers
-func (g *gen) open(base time.Time, v string) *tabEntry {
-	// fresh cipher objects for every question: the oracle must not remember earlier answers
-	for i, ci := range []*aead.MiscreantCipher{mustCipher(codeKeyB64), mustCipher(cookieKeyB64), mustCipher(foreignKeyB64)} {
-		s, err := sessions.UnmarshalSession(v, ci)
+func (g *gen) open(w *world, base time.Time, v string) *tabEntry {
+	// fresh cipher objects for every question: the oracle must not remember earlier answers.
+	// key 1 = the world's auth-code key, 2 = its cookie key, 3 = any of the other keys
+	keys := append([][]byte{w.codeKey, w.cookieKey}, w.related...)
+	for i, k := range keys {
+		s, err := sessions.UnmarshalSession(v, newCipher(k))
 		if err == nil && s != nil {
-			return &tabEntry{Code: v, Key: i + 1, S: sess{Email: s.Email, Access: s.AccessToken, Refresh: s.RefreshToken,
+			id := i + 1
+			if id > 3 {
+				id = 3
+			}
+			return &tabEntry{Code: v, Key: id, S: sess{Email: s.Email, Access: s.AccessToken, Refresh: s.RefreshToken,
 				RefreshOff: int64(s.RefreshDeadline.Sub(base) / time.Second), LifeOff: int64(s.LifetimeDeadline.Sub(base) / time.Second)}}
 		}
 	}
@@ -788,7 +866,11 @@ func (p *prepared) markers() []string {
 
 func (p *prepared) execute(t *ticket) (rec *httptest.ResponseRecorder, panicked bool) {
 	spec := p.spec
-	req := httptest.NewRequest("POST", "http://sso-auth.example.test"+spec.Path, bytes.NewReader([]byte(spec.Body)))
+	prefix := ""
+	if spec.Via == 2 {
+		prefix = "/test" // the provider slug NewAuthenticatorMux mounts the authenticator under
+	}
+	req := httptest.NewRequest("POST", "http://sso-auth.example.test"+prefix+spec.Path, bytes.NewReader([]byte(spec.Body)))
 	req.Method = spec.Method
 	req.URL.RawQuery = spec.Query
 	if spec.CType != "" {
@@ -805,8 +887,11 @@ func (p *prepared) execute(t *ticket) (rec *httptest.ResponseRecorder, panicked 
 	}
 	rec = httptest.NewRecorder()
 	h := p.w.bare
-	if spec.Pre {
+	switch spec.Via {
+	case 1:
 		h = p.w.chain
+	case 2:
+		h = p.w.full
 	}
 	defer func() {
 		if e := recover(); e != nil {
@@ -906,6 +991,31 @@ func (g *gen) forgeFrom(v string) (string, string) {
 	return v[:22] + v[22+4:], "four characters removed after the first 16 bytes"
 }
 
+// twin: the request p once more, byte for byte the same request line, body and tokens, but without
+// (or with a wrong) client secret. When the secret travels in a header the rendered query and body
+// are kept; otherwise they are rendered again without it. The twin has no provider script of its
+// own: a provider call carrying p's token is p's.
+func (g *gen) twin(p *prepared) *prepared {
+	f := p.clone()
+	f.keys = nil
+	inHeader := len(dropPairs(p.spec.Headers, "X-Client-Secret")) != len(p.spec.Headers)
+	inParams := len(dropPairs(p.q, "client_secret")) != len(p.q) || len(dropPairs(p.b, "client_secret")) != len(p.b)
+	f.spec.Headers = dropPairs(f.spec.Headers, "X-Client-Secret")
+	f.spec.Secrets = []string{}
+	f.why = "twin in the same batch: the same request without any client secret"
+	if inParams || !inHeader {
+		f.q, f.b = dropPairs(f.q, "client_secret"), dropPairs(f.b, "client_secret")
+		g.finish(f)
+	}
+	if g.r.Chance(0.5) {
+		wv := g.wrongOf(p.w.secret)
+		f.spec.Headers = append(f.spec.Headers, pair{"X-Client-Secret", wv})
+		f.spec.Secrets = []string{wv}
+		f.why = "twin in the same batch: the same request with a wrong client secret"
+	}
+	return f
+}
+
 func setPair(l []pair, k, v string) bool {
 	hit := false
 	for i := range l {
@@ -949,7 +1059,7 @@ func (g *gen) followUps(p *prepared, o obs) []*prepared {
 			setPair(f.b, "code", v)
 			f.code = codeSpec{Kind: 5, Value: v, S: p.code.S}
 			f.tab = nil
-			if e := g.open(f.base, v); e != nil {
+			if e := g.open(f.w, f.base, v); e != nil {
 				f.tab = []tabEntry{*e}
 			}
 			f.why = "after the genuine code was redeemed: " + why
@@ -1042,7 +1152,9 @@ func (g *gen) runBatch(ps []*prepared, oneProc bool) []c.Case {
 	owner := map[string]int{}
 	for i, p := range ps {
 		for _, k := range p.keys {
-			owner[k] = i
+			if _, taken := owner[k]; !taken {
+				owner[k] = i
+			}
 		}
 	}
 	per := make([][]pcall, len(ps))
@@ -1057,10 +1169,18 @@ func (g *gen) runBatch(ps []*prepared, oneProc bool) []c.Case {
 	}
 	out := make([]c.Case, len(ps))
 	for i, p := range ps {
+		own := map[string]bool{}
+		for _, m := range p.markers() {
+			own[m] = true
+		}
 		var foreign []string
 		for j, q := range ps {
 			if j != i {
-				foreign = append(foreign, q.markers()...)
+				for _, m := range q.markers() {
+					if !own[m] { // a twin carries the same session and provider script as its original
+						foreign = append(foreign, m)
+					}
+				}
 			}
 		}
 		out[i] = g.emit(p, g.observe(p, recs[i], pan[i], per[i], foreign), mode)
@@ -1220,6 +1340,7 @@ type fixed struct {
 	idCase, secCase   int // -1 = random
 	pre               bool
 	code              *codeSpec // a given code instead of a generated one
+	w                 *world    // a given world instead of the first one
 	base              time.Time
 }
 
@@ -1228,8 +1349,10 @@ func (g *gen) genCase(fx *fixed, hot bool) *prepared {
 	g.seq++
 	w := g.worlds[0]
 	if hot {
-		w = g.worlds[r.Intn(2)]
-	} else if fx == nil && r.Chance(0.12) {
+		w = g.worlds[[]int{0, 1, 5}[r.Intn(3)]]
+	} else if fx != nil && fx.w != nil {
+		w = fx.w
+	} else if fx == nil && r.Chance(0.2) {
 		w = g.worlds[1+r.Intn(len(g.worlds)-1)]
 	}
 	base := time.Now().Truncate(time.Second)
@@ -1243,12 +1366,18 @@ func (g *gen) genCase(fx *fixed, hot bool) *prepared {
 		spec.Method = r.Pick(methods)
 	}
 	spec.CType = r.Pick(ctypes)
-	spec.Pre = r.Chance(0.5)
+	spec.Via = r.Intn(3)
+	spec.Pre = spec.Via > 0
+	spec.Zone = g.zone
 	if r.Chance(0.3) {
 		spec.Accept = "application/json"
 	}
 	if fx != nil {
 		spec.Path, spec.Method, spec.CType, spec.Pre = fx.ep, fx.method, fx.ctype, fx.pre
+		spec.Via = 0
+		if fx.pre {
+			spec.Via = 1 + r.Intn(2)
+		}
 		for _, e := range endpoints {
 			if e.path == fx.ep {
 				ep = e
@@ -1324,14 +1453,14 @@ func (g *gen) genCase(fx *fixed, hot bool) *prepared {
 	var keys []string
 	switch ep.path {
 	case "/redeem":
-		code = g.genCode(base, hot)
+		code = g.genCode(w, base, hot)
 		if fx != nil && fx.code != nil {
 			code, base = *fx.code, fx.base
 		}
 		if code.Kind != 0 || r.Chance(0.5) {
 			place("code", code.Value, 0.8)
 		}
-		if e := g.open(base, code.Value); e != nil {
+		if e := g.open(w, base, code.Value); e != nil {
 			tab = append(tab, *e)
 		}
 	case "/refresh":
@@ -1391,6 +1520,7 @@ type timedSeq struct {
 
 func (g *gen) timedStart(cases *[]c.Case) []*timedSeq {
 	var out []*timedSeq
+	w := g.worlds[0]
 	base := time.Now().Truncate(time.Second)
 	for i := 0; i < 6; i++ {
 		g.n++
@@ -1403,7 +1533,7 @@ func (g *gen) timedStart(cases *[]c.Case) []*timedSeq {
 		case 1:
 			s.LifeOff, ts.d, ts.kind = 3, 3, 4
 		}
-		code := codeSpec{Kind: 1, Value: g.sealWith(g.code, base, s), S: &s}
+		code := codeSpec{Kind: 1, Value: g.sealWith(newCipher(w.codeKey), base, s), S: &s}
 		ts.p = g.genCase(&fixed{ep: "/redeem", method: "POST", ctype: "application/x-www-form-urlencoded", pre: i%2 == 1,
 			idCase: 15, secCase: 16, code: &code, base: base}, false)
 		ts.p.why = "timed sequence, first step: redeemed at once"
@@ -1493,19 +1623,22 @@ func main() {
 	a := c.ParseArgs()
 	args = a
 	c.Quiet()
-	g := &gen{r: c.NewRng(a.Seed), code: mustCipher(codeKeyB64), cookie: mustCipher(cookieKeyB64), foreign: mustCipher(foreignKeyB64)}
+	g := &gen{r: c.NewRng(a.Seed), zone: "UTC"}
+	time.Local = time.UTC
 	g.worlds = []*world{
 		newWorld("proxy-client-id", "proxy-client-secret"),
 		newWorld("id +&=%/ü", "s3cr+t &=%;/ü"),
 		newWorld("proxy-client-id", ""), // rejected by Validate: the guard of the theorems
 		newWorld("", "proxy-client-secret"),
 		newWorld("", ""),
+		newWorld("proxy-client-id", "proxy-client-secret", codeKey64B64, cookieKey64B64), // 64-byte keys
 	}
-	if !g.worlds[0].valid || !g.worlds[1].valid || g.worlds[2].valid || g.worlds[3].valid || g.worlds[4].valid {
+	if !g.worlds[0].valid || !g.worlds[1].valid || g.worlds[2].valid || g.worlds[3].valid || g.worlds[4].valid || !g.worlds[5].valid {
 		// not fatal: the cases carry the observed flag and Coq compares it with ClientConfig.Validate's model
 		fmt.Println("note: Configuration.Validate verdicts on the client table differ from the expected ones")
 	}
 	var cases []c.Case
+	zones := []*time.Location{time.UTC, time.FixedZone("UTC+13", 13*3600), time.FixedZone("UTC-8", -8*3600), time.FixedZone("UTC+5:30", 19800)}
 	// boundary cases first: every endpoint, right method, each (id placement x secret placement) is
 	// reached by the random stream; here the full grid endpoint x method x pre on fixed placements
 	for _, ep := range endpoints {
@@ -1559,22 +1692,69 @@ func main() {
 			}
 		}
 	}
+	// boundary cases: with the right credentials, a code sealed under every OTHER key (the cookie key and
+	// each related key: unrelated, sharing a half, one bit away, a half alone, padded) for a 32-byte-key
+	// and a 64-byte-key deployment; and, with the process in each time zone, fresh / just expired /
+	// long expired codes
+	for _, w := range []*world{g.worlds[0], g.worlds[5]} {
+		others := append([][]byte{w.cookieKey}, w.related...)
+		for i, k := range others {
+			g.n++
+			base := time.Now().Truncate(time.Second)
+			fs := sess{Email: fmt.Sprintf("zqEM%d@mark.example.test", g.n), Access: fmt.Sprintf("zqAT%dx", g.n),
+				Refresh: fmt.Sprintf("zqRT%dx", g.n), RefreshOff: 3600, LifeOff: 86400}
+			kind := 7
+			if i == 0 {
+				kind = 6
+			}
+			code := codeSpec{Kind: kind, Value: g.sealWith(newCipher(k), base, fs), S: &fs}
+			cases = append(cases, g.runSeq(g.genCase(&fixed{ep: "/redeem", method: "POST", ctype: "application/x-www-form-urlencoded",
+				pre: i%2 == 1, idCase: 15, secCase: 16, code: &code, base: base, w: w}, false)))
+		}
+	}
+	for zi, z := range zones {
+		time.Local, g.zone = z, z.String()
+		for j, offs := range [][2]int64{{3600, 86400}, {-120, 86400}, {-3600, 86400}, {-43200, 86400}, {3600, -120}, {3600, -3600}, {-3600, -3600}} {
+			g.n++
+			w := g.worlds[[]int{0, 5}[(zi+j)%2]]
+			base := time.Now().Truncate(time.Second)
+			fs := sess{Email: fmt.Sprintf("zqEM%d@mark.example.test", g.n), Access: fmt.Sprintf("zqAT%dx", g.n),
+				Refresh: fmt.Sprintf("zqRT%dx", g.n), RefreshOff: offs[0], LifeOff: offs[1]}
+			kind := 1
+			if offs[0] < 0 {
+				kind = 3
+			} else if offs[1] < 0 {
+				kind = 4
+			}
+			code := codeSpec{Kind: kind, Value: g.sealWith(newCipher(w.codeKey), base, fs), S: &fs}
+			cases = append(cases, g.runSeq(g.genCase(&fixed{ep: "/redeem", method: "POST", ctype: "application/x-www-form-urlencoded",
+				pre: j%2 == 1, idCase: 15, secCase: 16, code: &code, base: base, w: w}, false)))
+		}
+	}
+	time.Local, g.zone = time.UTC, "UTC"
 	timed := g.timedStart(&cases)
 	// generated requests come in batches of 4-16: each is first run alone, then the whole batch is
 	// run again with all its requests in flight at once (half of the batches under GOMAXPROCS(1));
 	// "hot" batches are mostly-valid requests of the two valid configurations, so that several
 	// handlers produce a 2xx body at the same time. Every observation is one case, judged against
 	// its own request by the same model and monitor.
-	for done := 0; done < a.N; {
+	// the process's time zone is part of the environment: batches run with time.Local set to UTC, far
+	// east, far west and a half-hour zone in turn (sealed deadlines must mean the same instants)
+	defer func() { time.Local = time.UTC }()
+	for done, batch := 0, 0; done < a.N; batch++ {
+		time.Local = zones[batch%len(zones)]
+		g.zone = time.Local.String()
 		k := 4 + g.r.Intn(13)
 		if k > a.N-done {
 			k = a.N - done
 		}
 		hot := g.r.Chance(0.5)
 		ps := make([]*prepared, k)
+		served := make([]bool, k)
 		for i := range ps {
 			ps[i] = g.genCase(nil, hot)
 			cs, o := g.runSeqObs(ps[i])
+			served[i] = o.Status >= 200 && o.Status <= 299
 			cases = append(cases, cs)
 			if g.r.Chance(0.5) {
 				for _, f := range g.followUps(ps[i], o) {
@@ -1583,10 +1763,21 @@ func main() {
 			}
 		}
 		if k >= 2 {
-			cases = append(cases, g.runBatch(ps, g.r.Chance(0.5))...)
+			// twins: for some served requests the SAME question (same URI, body, tokens) without or
+			// with a wrong client secret joins the batch, so that an entitled and an unentitled
+			// request for the same thing are in flight together
+			all := append([]*prepared{}, ps...)
+			for i, p := range ps {
+				// (only where the configuration is valid: with an empty configured secret the twin is entitled too)
+				if served[i] && p.w.valid && g.r.Chance(0.4) {
+					all = append(all, g.twin(p))
+				}
+			}
+			cases = append(cases, g.runBatch(all, g.r.Chance(0.5))...)
 		}
 		done += k
 	}
+	time.Local, g.zone = time.UTC, "UTC"
 	g.timedFinish(timed, &cases)
 	c.Must(c.WriteShards(a.Out, "Corr_C08", cases, a.Shard))
 	fmt.Printf("cases=%d\n", len(cases))
